@@ -69,6 +69,32 @@ def run(ctx):
                        "schedule": "capacity 3; thread 1: acquire (0); thread 0: acquire -> load head, load distance, read next[1] (stalls before CAS); "
                                    "thread 1: acquire (1), acquire (2), release 0, release 1, 32766 x (acquire, release); thread 0: CAS succeeds, returns 1; thread 0: acquire returns 2 while thread 1 holds 2"},
                       key=WRAP_KEY)
+    # ---- weak memory: the six orderings observed at the head accesses of UniqueIndexSet must be the table the
+    # release/acquire theorem (c09_uisra_exclusive_and_used_race_free) is stated for; otherwise search the view model
+    UCODE = ["acq", "acqrel", "acq", "acq", "acqrel", "acq"]
+    us = r.get("sites", {}).get("uis", {})
+    def col(site, idx):
+        return sorted({v[idx] for v in us.get(site, ())})
+    ucols = [col("10", 1), col("12", 1), col("12", 2), col("20", 1), col("22", 1), col("22", 2)]
+    ctx.cov["observed_ordering_table_uis"] = ucols
+    ctx.ra_witness = []
+    if us:
+        if any(len(c_) != 1 for c_ in ucols):
+            ctx.violation("memory-ordering table of UniqueIndexSet could not be observed unambiguously", {"observed": ucols}, no_input=True)
+        else:
+            table = [c_[0] for c_ in ucols]
+            if table != UCODE:
+                rc, out = vlib.sh("%s uisra %s" % (driver, " ".join(table)), timeout=600)
+                wit = [l for l in out.split("\n") if l.startswith("UISRAWITNESS")]
+                if wit:
+                    ctx.ra_witness.append(wit[0])
+                    ctx.violation("UniqueIndexSet: memory orderings %s differ from the proved table %s; under release/acquire semantics the view model has an execution in which the next-cell value USED by a successful compare-exchange was read racily: %s" % (table, UCODE, wit[0]),
+                                  {"observed_orderings(acquire:load,cas,cas_fail; release:load,cas,cas_fail)": table, "model_witness": wit[0],
+                                   "note": "schedule entries are thread:staleness; replay = run model/UniqueIndexSetRA.v vstep with these orderings on this schedule (coq: used_race_after); not reproducible on x86 hardware, which is why the tests pass",
+                                   "how_to_rerun": "%s uisra %s" % (driver, " ".join(table))})
+                else:
+                    ctx.violation("UniqueIndexSet: memory orderings %s differ from the table of theorem c09_uisra_exclusive_and_used_race_free; no failing execution found in the view model for them" % table,
+                                  {"obligation": "c09_uisra_exclusive_and_used_race_free is stated for uis_ords_code only", "observed": table}, no_input=True)
     # known finding uis:speculative-next-read: replay the schedule of c09_uis_no_cell_conflict_refuted on the real set
     spec_cmd = [exe, "one", "uis", "2", "acq|acq", "0,0,1,1,1,1,1,0,1"]
     rc, sout = vlib.sh(" ".join("'%s'" % x for x in spec_cmd) + " 2>/dev/null", timeout=120)
@@ -93,6 +119,8 @@ def run(ctx):
         msg = line.split("] ", 1)[1] if "] " in line else line
         ctx.violation("index-set property violated by the implementation under a concrete schedule: " + msg[:300],
                       {"execution": hist[:400], "harness_cmd": cmd, "how_to_rerun": "c09 one <kind> <cap> <program> <schedule from the S line> | ocaml/c09/driver"})
+    if ctx.ra_witness and model_mm and all("(ordering:" in m[2] for m in model_mm):
+        model_mm = []      # ordering-only divergence, already reported with a failing execution of the view model
     if model_mm and not spec_mm:
         # SEARCH: the tie broke but no explored execution violated the property.  Look harder around the
         # diverging kinds: one more preemption, more executions per program, more and different random programs;
